@@ -278,7 +278,7 @@ class Lib:
         cache[a] = t
       return t
     if name == 'dynamic_evaluate':
-      return self.hyper.dynamic_evaluate(self.fns[a], per_thread=arg.get('pt', True))
+      return self.hyper.dynamic_evaluate(None if a is None else self.fns[a], per_thread=arg.get('pt', True))
     raise AssertionError(name)
 
   # -- getters ------------------------------------------------------------------------------
@@ -762,9 +762,10 @@ def gen_arg(rng, name):
     ts = rng.sample(['T1', 'T2', 'T3'], rng.randint(0, 2))
     return {'kw': {t: t for t in ts}}
   if name == 'timeit':
-    return {'a': rng.choice(['t1', 't2', 't3'])}
+    return {'a': rng.choice(['t1', 't2', 't3', 't1', 't2', ''])}
   if name == 'dynamic_evaluate':
-    return {'a': rng.choice(['f1', 'f2', 'f3']), 'pt': True}
+    # None = "no dynamic evaluation in this scope": a thread-level None, not an absent setting
+    return {'a': rng.choice(['f1', 'f2', 'f3', None]), 'pt': True}
   if name == 'Functor.__call__':
     keys = ['x', 'y'][:rng.randint(0, 2)]
     return {'kw': {x: rng.randint(0, 9) for x in keys}}
@@ -830,6 +831,61 @@ class ProgGen:
       m = r.choice(acts)
       return ['act', m, r.choice(ACTIONS[m])]
     return [k]
+
+
+def falsy_args(name):
+  """Arguments that are falsy in Python yet a *setting* (not the absence of one)."""
+  if name in FLAGS:
+    return [{'a': False}] + ([{'a': None}] if name in TRI else [])
+  if name in ('str_format', 'repr_format', 'context'):
+    return [{'kw': {}}, {'kw': {'compact': None, 'k1': 0, 'k2': False}}, {'kw': {'k1': {'d': {}}, 'k2': {'l': []}}}]
+  if name in ('view_options', 'view'):
+    return [{'kw': {}}, {'kw': {'o1': None, 'o2': {'l': []}, 'o3': {'d': {}}}}, {'kw': {'o1': 0, 'o2': False}}]
+  if name == 'permission':
+    return [{'a': 0}]
+  if name == 'contextual_override':
+    return [{'kw': {}}, {'kw': {'cx': {'o': [None, True, False]}}}, {'kw': {'cx': {'o': [0, False, True]}, 'cy': {'o': [False, False, False]}}}]
+  if name == 'preset_args':
+    return [{'kw': {}, 'name': 'global', 'inh': False}, {'kw': {}, 'name': 'global', 'inh': True},
+            {'kw': {'k1': 0}, 'name': 'p1', 'inh': 'global'}]
+  if name == 'detour':
+    return [{'kw': {}}]
+  if name == 'load_types_for_deserialization':
+    return [{'kw': {}}]
+  if name == 'timeit':
+    return [{'a': ''}]
+  if name == 'dynamic_evaluate':
+    return [{'a': None, 'pt': True}]
+  if name == 'Functor.__call__':
+    return [{'kw': {}}]
+  return []
+
+
+def falsy_family(rng, reps=1):
+  """For every manager: a falsy setting nested under (and next to) truthy ones, while a second thread
+  holds a truthy setting of the same manager (for dynamic evaluation: a PROCESS-WIDE one) — the
+  falsy setting must stay in force; hand-offs are deterministic."""
+  for _ in range(reps):
+    for m in DRIVEN:
+      for f in falsy_args(m):
+        t1, t2 = gen_arg(rng, m), gen_arg(rng, m)
+        if m == 'dynamic_evaluate':
+          t1, t2 = {'a': rng.choice(['f1', 'f3']), 'pt': True}, {'a': 'f2', 'pt': False}
+        inner = ['scope', m, f, ['seq', ['probe', m], ['seq', ['sync'], ['seq', ['probe', m], ['seq', ['sync'], ['probe', m]]]]]]
+        if m in PROCESS_WIDE:
+          yield {'threads': [['scope', m, t1, ['seq', ['probe', m], ['seq', ['scope', m, f, ['probe', m]], ['probe', m]]]]]}
+          continue
+        for outer in (False, True):
+          w = ['seq', ['scope', m, t1, ['seq', ['probe', m], ['seq', inner, ['probe', m]]]] if outer else inner,
+               ['probe', m]]
+          # (thread 1 starts at thread 0's first hand-off)
+          b = ['seq', ['scope', m, t2, ['seq', ['probe', m], ['seq', ['sync'], ['probe', m]]]], ['probe', m]]
+          yield {'threads': [w, b]}
+          # the falsy block left by an exception while the other thread is inside its scope
+          wx = ['seq', ['try', ['scope', m, f, ['seq', ['sync'], ['seq', ['probe', m], ['raise']]]]], ['seq', ['sync'], ['probe', m]]]
+          if outer:
+            wx = ['scope', m, t1, wx]
+          yield {'threads': [wx, b]}
 
 
 def size(p):
@@ -944,6 +1000,7 @@ class C17(Prop):
       a = ['scope', m1, a1, ['seq', ['probe', m1], ['seq', ['sync'], ['seq', ['probe', m1], ['seq', ['sync'], ['probe', m1]]]]]]
       b = ['seq', ['try', ['scope', m2, a2, inner_b]], ['seq', ['probe', m2], ['sync']]]
       yield {'threads': [a, ['seq', ['sync'], b]]}
+    yield from falsy_family(rng, 1 if tier == 'quick' else 8)
     if tier == 'thorough':
       yield from self.exhaustive_pairs(rng)
 
@@ -1051,11 +1108,22 @@ class C17(Prop):
     # restoration, block by block. A failing inner block also shows in the snapshots of the blocks
     # around it: report the block whose *own* getter changed (else the first one).
     failing = []
+
+    def shared(tid):
+      """Managers for which ANOTHER thread opens a documented process-wide scope: their getters may
+      legitimately change under this thread's feet (judged by the probes inside own scopes instead)."""
+      out_ = set()
+      for j, prog in enumerate(case['threads']):
+        if j != tid:
+          for n in walk(prog):
+            if n[0] == 'scope' and (n[1] in PROCESS_WIDE or (n[1] == 'dynamic_evaluate' and not n[2].get('pt', True))):
+              out_.add(n[1])
+      return out_
     for tid, blocks in enumerate(out['blocks']):
       for b in blocks:
         if 'after' not in b:
           continue
-        diff = sorted(k for k in b['before'] if b['before'][k] != b['after'].get(k))
+        diff = sorted(k for k in b['before'] if b['before'][k] != b['after'].get(k) and k not in shared(tid))
         if diff:
           failing.append((0 if b['mgr'] in diff else 1, len(failing), tid, b, diff))
     if failing:
@@ -1095,7 +1163,7 @@ class C17(Prop):
         if b['mgr'] == 'timeit' and b.get('entered') and b.get('timeit_parent') is not None:
           par = blocks[b['timeit_parent']]
           keys = par.get('status_keys')
-          want = '%s.%s' % (par['arg']['a'], b['arg']['a'])
+          want = '%s.%s' % (par['arg']['a'], b['arg']['a']) if par['arg']['a'] else b['arg']['a']
           if keys is not None and want not in keys:
             return {'signature': 'timeit-child-not-registered',
                     'what': 'thread %d: pg.timeit(%r) entered inside pg.timeit(%r), but status() of the outer scope '
@@ -1103,13 +1171,13 @@ class C17(Prop):
     # a thread that starts while another one is inside scopes sees the same defaults as the first
     t0 = out['model']['threads'][0]['before']
     for tid, t in enumerate(out['model']['threads'][1:], 1):
-      diff = sorted(k for k in t0 if t['before'][k] != t0[k])
+      diff = sorted(k for k in t0 if t['before'][k] != t0[k] and k not in shared(tid))
       if diff:
         return {'signature': 'leak-across-threads:' + ','.join(diff),
                 'what': 'thread %d starts (the other thread being inside its scopes) and sees %s instead of the '
                         'defaults %s' % (tid, {k: t['before'][k] for k in diff}, {k: t0[k] for k in diff})}
     for tid, t in enumerate(out['model']['threads']):
-      diff = sorted(k for k in t['before'] if t['before'][k] != t['after'][k])
+      diff = sorted(k for k in t['before'] if t['before'][k] != t['after'][k] and k not in shared(tid))
       if diff:
         return {'signature': 'program-not-restored:' + ','.join(diff),
                 'what': 'thread %d: getters %s differ between start and end of the program' % (tid, diff)}
@@ -1123,7 +1191,7 @@ class C17(Prop):
     if two:
       # isolation: every probe of a thread must be explained by that thread's own enclosing scopes.
       for tid, prog in enumerate(case['threads']):
-        exp = self.expected_probes(prog, out['model']['threads'][tid]['before'])
+        exp = self.expected_probes(prog, out['model']['threads'][tid]['before'], shared(tid))
         got = out['model']['threads'][tid]['obs']
         for (name, want), g in zip(exp, got):
           if want is not None and g[0] == name and g[1] != want[1]:
@@ -1132,7 +1200,7 @@ class C17(Prop):
                             'was inside scopes at hand-off points)' % (tid, name, g[1], want[1])}
     return None
 
-  def expected_probes(self, prog, defaults):
+  def expected_probes(self, prog, defaults, shared=()):
     """Probe values a thread must see given only its own scopes (None: no independent rule).
     Follows the control flow of the program (raise / try) without looking at the implementation."""
     out = []
@@ -1141,6 +1209,8 @@ class C17(Prop):
       pass
 
     def cur(env, name):
+      if name in shared and not any(CELL[m] == CELL[name] for m, _ in env):
+        return None       # another thread's documented process-wide setting may show through
       v = ('v', defaults[name])
       for m, arg in env:
         if CELL[m] == CELL[name]:
